@@ -3,6 +3,7 @@ package main
 // Semantics of individual SSA instructions.
 
 import (
+	"os"
 	"fmt"
 	"go/token"
 	"go/types"
@@ -147,6 +148,23 @@ func (g *gen) store(fr *frame, n *node, st *State, addr ssa.Value, val Val, pos 
 		if named && g.P.spec.Immutable[sk+"."+fa.field.Name()] {
 			g.safety(n, "immutable", fa.field.Name(), pos, g.isFreshHere(fa.base))
 		}
+		if named && g.P.spec.Confined[sk] {
+			if _, local := g.localCell[fa.base+"#"+fa.field.Name()]; !local {
+				ow := g.svGet(st, "$owns", "(Array Ref Int)")
+				g.safety(n, "confined", fa.field.Name(), pos, app("=", app("select", ow, fa.base), "1"))
+			}
+		}
+		if named && os.Getenv("PIKEVC_SURVEY") != "" {
+			cls := "unclassified"
+			if _, ok := g.P.spec.Guarded[sk+"."+fa.field.Name()]; ok {
+				cls = "guarded"
+			} else if g.P.spec.Immutable[sk+"."+fa.field.Name()] {
+				cls = "immutable"
+			} else if g.P.spec.Confined[sk] {
+				cls = "confined"
+			}
+			fmt.Fprintf(os.Stderr, "SURVEY store %s %s.%s %s at %s\n", g.name, shortKey(sk), fa.field.Name(), cls, g.pos(pos))
+		}
 		if named {
 			if hk := g.P.spec.Hooks[sk+"."+fa.field.Name()]; hk != nil {
 				g.runHook(n, st, hk, fa, val, pos)
@@ -277,6 +295,11 @@ func (g *gen) execInstr(fr *frame, cur *node, st *State, ins ssa.Instruction) *n
 			g.storeAt(cur, st, ref, el, g.zeroVal(el))
 		}
 		g.zeroGhostFields(cur, st, ref, el)
+		if sk, ok := namedStructKey(el); ok && g.P.spec.Confined[sk] {
+			// a new object of a confined type belongs to the goroutine that allocated it
+			ow := g.svGet(st, "$owns", "(Array Ref Int)")
+			g.svAssign(cur, st, "$owns", "(Array Ref Int)", app("store", ow, ref, "1"))
+		}
 	case *ssa.FieldAddr:
 		base := g.sval(fr, x.X)
 		if _, ok := x.X.(*ssa.Alloc); !ok {
